@@ -395,7 +395,8 @@ func (vs *ValidatorStore) GetEndBlockUpdate(ctx *ValidatorContext, req types.Req
 	total, err := ctx.FeePool.Get([]byte(fees.POOL_KEY))
 	if err != nil {
 		logger.Fatal("failed to get the total fee pool")
-	} else if ctx.FeePool.GetOpt().MinFee().LessThanCoin(total) {
+	} else if ctx.FeePool.GetOpt().MinFee().LessThanCoin(total) && vs.totalPower > 0 {
+		// the shares are proportional to the total power: nothing to divide by without any
 		distribute = true
 	}
 	stakingOptions, err := ctx.Govern.GetStakingOptions()
